@@ -90,7 +90,7 @@ var timeFormats = []string{"rfc3339nano", "rfc3339", "unixtime", "unixtimemilli"
 
 var metricNames = []string{"c13_metric", "mask_applied_total", "m1", "", "bad-name", "é"}
 
-var templateNames = []string{"go_panic", "cs_exception", "go_data_race", "go_panic", "cs_exception", "go_data_race", "go_panic", "nope", "", "go_data_race"}
+var templateNames = []string{"go_panic", "cs_exception", "go_data_race", "go_panic", "cs_exception", "go_data_race", "go_panic", "cs_exception", "go_data_race", "go_panic", "cs_exception", "nope", "", "go_data_race"}
 
 var levelWords = []string{"", "info", "error", "3", "WARN", "unknown", "debug"}
 
@@ -122,11 +122,14 @@ var regexPool = []reSample{
 	{re: `(?P<a>\w+)=(?P<b>\w+)?`, samples: []string{"k=v", "k=", "=v"}, named: true},
 	{re: `(?P<ts>\d+)(?:\.(?P<frac>\d+))?`, samples: []string{"1698672933.123", "1698672933", "x"}, named: true},
 	{re: `(?P<level>é|x)(?P<message>.*)`, samples: []string{"éabc", "x", "y"}, named: true},
-	{re: `(`, samples: nil},
-	{re: `[a`, samples: nil},
 }
 
+var brokenRegexps = []reSample{{re: `(`}, {re: `[a`}, {re: ``}, {re: `a{2,1}`}}
+
 func (g *G) regex(label string, wantNamed bool) reSample {
+	if g.chance(3, label+"/broken") {
+		return pick(g, label+"/brokenre", brokenRegexps)
+	}
 	pool := regexPool
 	if wantNamed {
 		pool = nil
@@ -135,7 +138,7 @@ func (g *G) regex(label string, wantNamed bool) reSample {
 				pool = append(pool, r)
 			}
 		}
-		pool = append(pool, regexPool[2], regexPool[len(regexPool)-2]) // unnamed groups, broken
+		pool = append(pool, regexPool[2]) // unnamed groups only
 	}
 	r := pick(g, label, pool)
 	g.texts = append(g.texts, r.samples...)
@@ -212,8 +215,8 @@ var overrides = map[string]override{
 	"throttle:limiter_backend":      optional(30, oneOf("memory")),
 	"throttle:redis_backend_config": skip,
 	"throttle:default_limit":        optional(85, oneOf(1, 2, 3, 1, 2, 10, 5000, -1, 0)),
-	"throttle:buckets_count":        optional(70, oneOf(1, 2, 3, 60, 5)),
-	"throttle:bucket_interval":      optional(70, oneOf("1s", "1m", "1h", "100ms", "24h", "1m30s")),
+	"throttle:buckets_count":        optional(70, oneOf(1, 2, 3, 60, 5, 1, 2, 3, 60, 5, 2, -1, 3)),
+	"throttle:bucket_interval":      optional(70, oneOf("1s", "1m", "1h", "100ms", "24h", "1m30s", "1s", "1m", "1h", "100ms", "1m", "0s", "-1s", "24h")),
 	"throttle:limiter_expiration":   optional(30, oneOf("30m", "1s", "1ms", "1h")),
 	"throttle:throttle_field":       optional(70, func(g *G) (any, bool) { return g.selector("throttle_field"), true }),
 	"throttle:time_field": optional(70, func(g *G) (any, bool) {
@@ -311,6 +314,13 @@ func jsonName(f reflect.StructField) string {
 
 // genStruct walks a config struct type and returns the JSON object for it.
 func (g *G) genStruct(t reflect.Type, prefix string) map[string]any {
+	return g.genStructIn(t, prefix, false)
+}
+
+// genStructIn: inElem = the struct is an element of a slice. cfg.SetDefaultValues runs before the JSON is decoded,
+// i.e. while slices are still empty, so elements never get their `default:` values: options / required fields of an
+// element have to be written out by the user (throttle rules' limit_kind, hash fields' format).
+func (g *G) genStructIn(t reflect.Type, prefix string, inElem bool) map[string]any {
 	m := map[string]any{}
 	for i := 0; i < t.NumField(); i++ {
 		f := t.Field(i)
@@ -330,7 +340,7 @@ func (g *G) genStruct(t reflect.Type, prefix string) map[string]any {
 		if strings.Contains(strings.ToLower(name), "field") {
 			include = g.chance(85, key+"/include-field")
 		}
-		if required {
+		if required || (inElem && f.Tag.Get("options") != "") {
 			include = !g.chance(4, key+"/omit-required")
 		}
 		if !include {
@@ -378,7 +388,7 @@ func (g *G) genValue(f reflect.StructField, key, prefix string) (any, bool) {
 			}
 			out := []any{}
 			for i := 0; i < n; i++ {
-				out = append(out, g.genStruct(et, prefix))
+				out = append(out, g.genStructIn(et, prefix, true))
 			}
 			return out, true
 		case reflect.Int:
@@ -490,9 +500,9 @@ func throttleDistribution(g *G) map[string]any {
 	vals := []string{"error", "info", "debug", "warn", "x", "é", ""}
 	used := 0
 	for i := 0; i < n; i++ {
-		r := g.intn("ld/ratio", 0, 6)
+		r := g.intn("ld/ratio", 1, 6)
 		if g.chance(90, "ld/fit") && r > budget {
-			r = budget
+			r = budget // 0 = "required" ratio missing: rejected
 		}
 		budget -= r
 		if budget < 0 {
@@ -504,7 +514,7 @@ func throttleDistribution(g *G) map[string]any {
 			vs = append(vs, vals[used])
 			used++
 		}
-		if g.chance(5, "ld/dupval") {
+		if g.chance(3, "ld/dupval") {
 			vs = append(vs, vals[0])
 		}
 		ratios = append(ratios, map[string]any{"ratio": float64(r) / 10, "values": vs})
@@ -526,7 +536,7 @@ func throttleRules(g *G) (any, bool) {
 	rules := []any{}
 	for i := 0; i < n; i++ {
 		r := map[string]any{"limit": pick(g, "rules/limit", []int{1, 2, 0, 3, -1, 100})}
-		if g.chance(40, "rules/kind") {
+		if !g.chance(4, "rules/nokind") { // no default inside slice elements: must be written out
 			r["limit_kind"] = pick(g, "rules/kindv", []string{"count", "size"})
 		}
 		if g.chance(80, "rules/cond") {
@@ -714,7 +724,7 @@ func (g *G) substitution() string {
 	for i := 0; i < n; i++ {
 		switch g.intn("subst/kind", 0, 9) {
 		case 0, 1:
-			sb.WriteString(pick(g, "subst/raw", []string{"value is ", "x", " ", "é", "$$", "$", "a\"b", "value is ", "x", " ", "}", "${", "-"}))
+			sb.WriteString(pick(g, "subst/raw", []string{"value is ", "x", " ", "é", "$$", "$", "a\"b", "value is ", "x", " ", "-", "_", ":", "|", "}", "${", "="}))
 		case 2, 3, 4:
 			sb.WriteString("${" + g.selector("subst/field") + "}")
 		default:
@@ -741,6 +751,9 @@ func (g *G) filter() string {
 		var groups []int
 		if ng == 0 {
 			groups = []int{0}
+			if !g.chance(9, "filter/nowrap") {
+				r.re = "(" + r.re + ")" // group 0 alone needs at least one capture group to pass VerifyGroupNumbers
+			}
 		} else {
 			k := g.intn("filter/ngroups", 1, ng)
 			groups = rapid.Permutation(seq(1, ng)).Draw(g.t, "filter/perm")[:k]
